@@ -25,20 +25,26 @@ theorem untranslated_pinned : untranslated =
 /-- translated classes whose values are not written verbatim (name ↦ what the source does) -/
 def irregular : List (String × List String) := (classes.filter (fun c => !c.flags.isEmpty)).map fun c => (c.name, c.flags)
 
-theorem irregular_pinned : irregular =
+/-- the irregular classes and what makes each irregular; `memo` = the flags of `ofp_stats_request` (they differ between the
+    tree where its `_pack_body` memoises the packed body and the one where it does not — fixes/C01-K5) -/
+def irregularWith (memo : List String) : List (String × List String) :=
     [("ofp_match", ["branch-on:adjust_wildcards", "computed:wildcards", "computed:in_port", "computed:dl_src",
         "computed:dl_dst", "computed:dl_vlan", "computed:dl_vlan_pcp", "computed:dl_type", "computed:nw_tos",
         "computed:nw_proto", "computed:nw_src", "computed:nw_dst", "computed:tp_src", "computed:tp_dst"]),
      ("ofp_action_output", ["normalises:max_len when port"]),
      ("ofp_flow_mod", ["locals", "normalises:buffer_id when data", "substructure-option:match(flow_mod)",
         "computed:buffer_id", "conditional-append-on:data"]),
-     ("ofp_stats_request", ["normalises:type when type", "memoised:body_packed", "dispatch-on-body"]),
+     ("ofp_stats_request", memo),
      ("ofp_stats_reply", ["normalises:type when type", "dispatch-on-body"]),
      ("nx_flow_mod_table_id", ["computed:enable"]),
      ("nx_output_reg", ["normalises:nbits when nbits", "locals", "computed:ofs_nbits(nbits,offset)", "computed:reg"]),
      ("nx_reg_move", ["normalises:nbits when nbits", "locals", "computed:src", "computed:dst"]),
      ("nx_reg_load", ["locals", "branch-on:dst", "normalises:nbits when nbits", "computed:ofs_nbits(nbits,offset)",
-        "computed:dst", "computed:value"])] := by decide
+        "computed:dst", "computed:value"])]
+
+theorem irregular_pinned :
+    irregular = irregularWith ["normalises:type when type", "memoised:body_packed", "dispatch-on-body"] ∨
+    irregular = irregularWith ["normalises:type when type", "branch-on:body", "dispatch-on-body"] := by decide
 
 /-- irregular / untranslated classes that have a hand model with its own theorem in this file:
     `ofp_match` (`match_roundtrip`, `match_roundtrip_fm`), `ofp_flow_mod` (`roundtrip` for the layout +
